@@ -85,16 +85,10 @@ def Struct.FrameOK (M : Struct) : FrameKind → Prop
   | .S4 => (∀ w, M.R w w) ∧ (∀ a b c, M.R a b → M.R b c → M.R a c)
   | .S5 => (∀ w, M.R w w) ∧ (∀ a b c, M.R a b → M.R b c → M.R a c) ∧ (∀ a b, M.R a b → M.R b a)
 
-open Classical in
-noncomputable def replaceD {D : Type} (a b : D) (ds : List D) : List D := ds.map (fun x => if x = a then b else x)
-
-/-- classical family: Identity is, at every world, a congruence for every predicate (and in
-    particular reflexive), Existence holds of everything -/
+/-- classical family: Identity is identity of the domain at every world, Existence holds of everything -/
 def Struct.ClassicalOK (M : Struct) : Prop :=
-  (∀ w d, M.predV w Pred.identity [d, d] = .T) ∧
-  (∀ w d, M.predV w Pred.existence [d] = .T) ∧
-  (∀ w a b, M.predV w Pred.identity [a, b] = .T →
-      ∀ p ds, M.predV w p ds = M.predV w p (replaceD a b ds) ∧ M.predV w p ds = M.predV w p (replaceD b a ds))
+  (∀ w a b, M.predV w Pred.identity [a, b] = .T ↔ a = b) ∧
+  (∀ w a, M.predV w Pred.existence [a] = .T)
 
 /-- node satisfaction; `σ` maps the world labels of nodes to worlds of the structure
     (a node without world sits at label 0) -/
